@@ -24,26 +24,35 @@ conf = "/tmp/confirm%s_%s_%s.txt" % (os.environ.get("CONFTAG", ""), wt, k)
 confirmed = open(conf).read().strip().splitlines() if os.path.exists(conf) else []
 if subprocess.run(["git", "-C", "/repo", "status", "--porcelain", "--untracked-files=no"], capture_output=True, text=True).stdout.strip():
     sys.exit("/repo not clean")
-head = subprocess.run(["git", "-C", "/repo", "rev-parse", "--short", "HEAD"], capture_output=True, text=True).stdout.strip()
-r = subprocess.run(["git", "-C", "/repo", "apply", os.path.join(dst, "patch.diff")], capture_output=True, text=True)
+at_wt = os.environ.get("AT_WORKTREE")     # the change was made harmless by a later repair: run the checks against the worktree it was seeded in
+target = os.path.dirname(src) if at_wt else "/repo"
+head = subprocess.run(["git", "-C", target, "rev-parse", "--short", "HEAD"], capture_output=True, text=True).stdout.strip()
+r = subprocess.run(["git", "-C", target, "apply", os.path.join(dst, "patch.diff")], capture_output=True, text=True)
 if r.returncode != 0:
-    sys.exit("patch does not apply to /repo HEAD: " + r.stderr)
+    sys.exit("patch does not apply to %s HEAD: %s" % (target, r.stderr))
 results = {}
+env = dict(os.environ, VERIF_REPO=target) if at_wt else dict(os.environ)
 try:
     for c in checks:
-        p = subprocess.run(["./check", c, "--tier", tier], cwd="/verif", capture_output=True, text=True)
+        p = subprocess.run(["./check", c, "--tier", tier], cwd="/verif", capture_output=True, text=True, env=env)
         sigs = [l.strip() for l in p.stdout.splitlines() if l.strip().startswith("signature:")][:3]
         results[c] = {"tier": tier, "exit": p.returncode, "violation_lines": sum(1 for l in p.stdout.splitlines() if l.startswith("VIOLATION")), "first_signatures": sigs}
 finally:
-    subprocess.run(["git", "-C", "/repo", "checkout", "--", "."])
+    subprocess.run(["git", "-C", target, "checkout", "--", "."])
 out = {
     "property": meta.get("property"), "summary": meta.get("summary"), "needs": meta.get("needs"),
     "origin": "sub-agent given only the property text and its own worktree",
     "agent_reported": {k2: meta.get(k2) for k2 in ("suite", "demo_clean", "demo_mutated")},
     "confirmed_by_me": {"what_i_ran": "tools/confirm_seed.sh %s %s (patch applied in the scratch worktree: full baseline suite vs BASELINE.json stable_pass, demo with patch, demo on clean tree)" % (wt, k), "output": confirmed},
-    "checks_run_against_it": {"repo_head": head, "how": "git -C /repo apply patch.diff; ./check <ID> --tier %s; git -C /repo checkout -- ." % tier, "results": results},
+    "checks_run_against_it": {"repo_head": head, "how": ("git -C /repo apply patch.diff; ./check <ID> --tier %s; git -C /repo checkout -- ." % tier) if not at_wt else
+                              ("patch applied in the scratch worktree (at %s); VERIF_REPO=<worktree> ./check <ID> --tier %s" % (head, tier)), "results": results},
     "caught_by": [c for c, v in results.items() if v["exit"] == 1],
 }
+if at_wt:
+    out["harmless_at_head_after_fix"] = at_wt
+    out["display"] = "%s at %s; harmless since fix %s (silent at HEAD)" % (", ".join(out["caught_by"]) or "-", head, at_wt)
+    out["caught_by_at_seed_commit"] = out["caught_by"]
+    out["caught_by"] = []
 if ported:
     out["note"] = "patch_as_delivered.diff did not apply to /repo HEAD after a later fix; patch.diff is the same change carried over by hand"
 if os.environ.get("SEED_NOTE"):
